@@ -47,10 +47,15 @@ def stim_codes(m, stim):
     return a
 
 
-def run_logic(c, m, lanes, stim, reuse=False, strip=False, cb=None, use_cb=False, pad_rnd=None, cycles=0):
+def run_logic(c, m, lanes, stim, reuse=False, strip=False, cb=None, use_cb=False, pad_rnd=None, cycles=0, warm=None):
     """One propagation (or `cycles` clock cycles) of the real simulator. stim: codes (bits for m=2) S x lanes."""
     from kyupy.logic_sim import LogicSim
     s = LogicSim(c, sims=lanes, m=m, c_reuse=reuse, strip_forks=strip)
+    if warm is not None:        # history: the same simulator object already simulated another pattern set
+        mv_to_s0(s, stim_codes(m, warm), None)
+        s.s_to_c()
+        s.c_prop()
+        s.c_to_s()
     mv_to_s0(s, stim_codes(m, stim), pad_rnd)
     if cycles:
         s.cycle(cycles, cb if use_cb else None)
@@ -87,7 +92,8 @@ def record(c, st, m, lanes, stim, reuse, strip, use_cb, rnd, cycles=()):
                opts=dict(reuse=reuse, strip=strip, cb=use_cb))
     try:
         noop = (lambda line, v: None)
-        a = run_logic(c, m, lanes, stim, reuse, strip, noop, use_cb)
+        warm = rand_stim(rnd, m, len(stim), lanes, families=False) if rnd.random() < 0.4 else None
+        a = run_logic(c, m, lanes, stim, reuse, strip, noop, use_cb, warm=warm)
         b = run_logic(c, m, lanes, stim, reuse, strip, noop, use_cb, pad_rnd=rnd)
         rec['resp'] = codes(a, 1, lanes)
         rec['respB'] = codes(b, 1, lanes)
